@@ -34,6 +34,14 @@ CHECKS = {
             "generated-input search on large real hosts; whole-file canonical-tree comparison of gopatch's output with the reference rewrite, imports as multiset",
             "Whole output files (up to 400 lines of real standard-library code around 1..n sites) are compared with the reference rewrite; any difference outside the rewritten fragments fails the check.",
             MODEL_NOTE, "DESIGN.md §4 C05"),
+    "C06": ("exploration",
+            "generated-input search: patch sets whose non-application to a file is decided without gopatch (reference matcher finds no site / unique callee name absent / guard that cannot hold) x files deformed into non-canonical layouts x modes x flags; validity predicate on the file-system snapshot, stdout, stderr, exit status and the Apply result",
+            "Thousands (quick) to hundreds of thousands (thorough) of runs over 1-5 files in the default mode, with --diff and with --print-only plus the library: a file to which no change applies must keep bytes, mode, mtime and inode, get no diff, description or error, be echoed byte for byte by --print-only and be returned unchanged by Apply; a run in which nothing applies anywhere must exit 0 with empty stderr and (but for --print-only / -v log lines) empty stdout. Sampling: exploration.",
+            "Trusts the reference matcher (harness/ref) for 'no site' and the file-system snapshot; files with an inadmissible match are not judged.", "DESIGN.md §4 C06, §10.7"),
+    "C12": ("exploration",
+            "generated-input search with a differential oracle between the four output channels (bytes written in place, --print-only stdout, original + --diff hunks applied by a byte-exact applier, patch.File.Apply) and a snapshot invariant for dry runs (complete tree digest before/after, incl. patch files and $TMPDIR)",
+            "Hundreds (quick) to tens of thousands (thorough) of invocations over 1-6 files (matching, not matching, failing, generated, non-canonical layouts) x flag subsets x argument spellings, each run in four modes on identical trees: a dry run may not change any entry; the four channels must carry identical bytes per file and the same exit status; descriptions only on stderr as 'path:text' for files the described change applied to. Two listed known findings (final newline, misordered hunks) are reported as KNOWN-FINDING and do not hide other differences.",
+            "Differential between gopatch's own modes (that is the stated relation); which change applied to a file is decided by folding single-change library runs and confirmed by a -v solo run before a report.", "DESIGN.md §4 C12, §10.7"),
     "C07": ("exploration",
             "generated-input search (templates that put captured code where it does not fit, ill-typed grammar, mined patterns) through the API and 8 CLI mode x flag combinations; validity predicate: go/parser on every emitted content",
             "Every content gopatch emits with exit 0 (in place, --print-only, --diff applied by a small applier, Apply result) is parsed; a reported error must name the file and leave it untouched.",
